@@ -131,6 +131,82 @@ def definite_failures(ctx, facts, sm, rule, rels, class_filter=None, func_filter
         ctx.ok(rule, 'no-definite-failure', '%d methods scanned: every global name resolves, every self attribute read is assigned somewhere' % nfun)
 
 
+def shared_instance_state(ctx, facts, rule, rels):
+    """Instance isolation: the state of one block instance is not shared with another instance of the class.  Two shapes can share it and
+    both are visible in the source: a mutable default argument of the constructor (evaluated once per process) that is stored into `self`
+    or mutated, and a class-level mutable container that a method mutates through `self` / the class."""
+    MUT = {'append', 'extend', 'insert', 'pop', 'remove', 'clear', 'update', 'setdefault', 'sort', 'reverse', 'add', 'discard', 'popitem'}
+    ncls = 0
+    found = False
+
+    def mutable(e):
+        return isinstance(e, (ast.List, ast.Dict, ast.Set, ast.ListComp, ast.DictComp, ast.SetComp)) or \
+            (isinstance(e, ast.Call) and isinstance(e.func, ast.Name) and e.func.id in ('list', 'dict', 'set', 'bytearray', 'deque', 'defaultdict')) or \
+            (isinstance(e, ast.BinOp) and isinstance(e.op, ast.Mult) and (mutable(e.left) or mutable(e.right)))
+    for lst in facts.classes.values():
+        for c in lst:
+            if c.rel not in rels:
+                continue
+            ncls += 1
+            for mname, fn in c.methods.items():
+                a = fn.args
+                pos = a.posonlyargs + a.args
+                pairs = list(zip(pos[len(pos) - len(a.defaults):], a.defaults)) + [(p, d) for p, d in zip(a.kwonlyargs, a.kw_defaults) if d is not None]
+                for prm, d in pairs:
+                    if not mutable(d):
+                        continue
+                    name = prm.arg
+                    # aliases of the parameter inside the method (x = param)
+                    al = {name}
+                    for n in ast.walk(fn):
+                        if isinstance(n, ast.Assign) and isinstance(n.value, ast.Name) and n.value.id in al:
+                            al.update(t.id for t in n.targets if isinstance(t, ast.Name))
+                    rebinding = any(isinstance(n, ast.Assign) and any(isinstance(t, ast.Name) and t.id == name for t in n.targets)
+                                    and not (isinstance(n.value, ast.Name) and n.value.id in al) for n in ast.walk(fn))
+                    esc = None
+                    for n in ast.walk(fn):
+                        if isinstance(n, ast.Assign) and isinstance(n.value, ast.Name) and n.value.id in al and any(is_self_attr(t) for t in n.targets):
+                            esc = 'stored into `%s`' % norm(n.targets[0])
+                        elif isinstance(n, ast.Call) and isinstance(n.func, ast.Attribute) and n.func.attr in MUT and isinstance(n.func.value, ast.Name) \
+                                and n.func.value.id in al:
+                            esc = 'mutated by `%s`' % norm(n)[:60]
+                        elif isinstance(n, ast.AugAssign) and isinstance(n.target, ast.Name) and n.target.id in al:
+                            esc = 'mutated in place by `%s`' % norm(n)[:60]
+                        elif isinstance(n, (ast.Assign, ast.AugAssign)) and any(isinstance(t, ast.Subscript) and isinstance(t.value, ast.Name) and t.value.id in al
+                                                                               for t in (n.targets if isinstance(n, ast.Assign) else [n.target])):
+                            esc = 'written by `%s`' % norm(n)[:60]
+                        if esc:
+                            break
+                    if esc and not rebinding:
+                        found = True
+                        ctx.violation(rule, '%s.%s:default:%s' % (c.name, mname, name),
+                                      'the mutable default `%s=%s` of %s.%s is one object for the whole process and is %s: every instance built without that '
+                                      'argument shares it' % (name, norm(d)[:30], c.name, mname, esc), '%s:%s.%s' % (c.rel, c.name, mname),
+                                      witness=dict(history='build two instances without `%s` (same or different designs); drive the first; the second shows its state' % name))
+            # class-level containers mutated through self / the class
+            for st in c.node.body:
+                if isinstance(st, ast.Assign) and len(st.targets) == 1 and isinstance(st.targets[0], ast.Name) and mutable(st.value):
+                    an = st.targets[0].id
+                    for mname, fn in c.methods.items():
+                        rebound = any(isinstance(n, ast.Assign) and any(is_self_attr(t, an) for t in n.targets) for m2 in c.methods.values() for n in ast.walk(m2))
+                        if rebound:
+                            continue
+                        for n in ast.walk(fn):
+                            hit = (isinstance(n, ast.Call) and isinstance(n.func, ast.Attribute) and n.func.attr in MUT and
+                                   (is_self_attr(n.func.value, an) or norm(n.func.value) == '%s.%s' % (c.name, an))) or \
+                                  (isinstance(n, ast.Assign) and any(isinstance(t, ast.Subscript) and (is_self_attr(t.value, an) or norm(t.value) == '%s.%s' % (c.name, an))
+                                                                     for t in n.targets))
+                            if hit:
+                                found = True
+                                ctx.violation(rule, '%s.%s:class-level:%s' % (c.name, mname, an),
+                                              'class-level container `%s.%s` is mutated by %s(): the state is shared by all instances' % (c.name, an, mname),
+                                              '%s:%s.%s' % (c.rel, c.name, mname), witness=dict(history='two instances of %s in one process' % c.name))
+                                break
+    if not found:
+        ctx.ok(rule, 'instance-isolation', '%d classes: no mutable default argument is stored or mutated, no class-level container is written through an instance' % ncls)
+    return ncls
+
+
 def find_func(tree, qual):
     parts = qual.split('.')
     node = tree
